@@ -84,6 +84,35 @@ Theorem periods_bounded : forall fmin fmax f e fa l,
                 1 / fb <= t2 /\ t2 <= t1 /\ t1 <= 1 / fa.
 Proof. exact periods_bounded. Qed.
 
+(* the premises on m1, m2 follow from m0 > 0 when the first in-band frequency is positive *)
+Theorem periods_bounded_m0 : forall fmin fmax f e fa l,
+  StronglySorted Rlt f -> nonneg_spec e ->
+  map fst (band_pts fmin fmax f e) = fa :: l -> 0 < fa ->
+  0 < m0 fmin fmax f e ->
+  let fb := last (fa :: l) 0 in
+  exists t1 t2, tm01 fmin fmax f e = Some t1 /\ tm02 fmin fmax f e = Some t2 /\
+                1 / fb <= t2 /\ t2 <= t1 /\ t1 <= 1 / fa.
+Proof. exact periods_bounded_m0. Qed.
+
+(* endpoint-weight form: moment = sum_k w_k fill0(e_k) f_k^n with weights w_k >= 0 on a sorted grid *)
+Theorem moment_endpoint_weights : forall n fmin fmax f e,
+  let l := band_pts fmin fmax f e in
+  moment n fmin fmax f e
+  = sumR (map (fun wa => fst wa * (fill0 (snd (snd wa)) * fst (snd wa) ^ n))
+              (combine (weights (map fst l)) l))
+  /\ (StronglySorted Rlt f -> Forall (fun w => 0 <= w) (weights (map fst l))).
+Proof. exact moment_endpoint_weights. Qed.
+
+(* non-negative spectra: m0 >= 0 and Hm0 = 4 sqrt(m0) is a number *)
+Theorem m0_nonneg : forall fmin fmax f e,
+  StronglySorted Rlt f -> nonneg_spec e -> 0 <= m0 fmin fmax f e.
+Proof. exact m0_nonneg. Qed.
+
+Theorem hm0_defined : forall fmin fmax f e,
+  StronglySorted Rlt f -> nonneg_spec e ->
+  hm0 fmin fmax f e = Some (4 * sqrt (m0 fmin fmax f e)).
+Proof. exact hm0_defined. Qed.
+
 (* leading dimensions: every point of a batch is treated on its own *)
 Theorem batch_independent : forall n fmin fmax f es d i,
   nth i (moment_batch n fmin fmax f es) (moment n fmin fmax f d) = moment n fmin fmax f (nth i es d).
@@ -106,6 +135,12 @@ Proof. exact moment_batch_independent. Qed.
 Theorem moment2d_scale : forall n fmin fmax f th E c,
   moment2d n fmin fmax f th (scale_spec2d c E) = c * moment2d n fmin fmax f th E.
 Proof. exact moment2d_scale. Qed.
+
+Theorem moment2d_add : forall n fmin fmax f th E E',
+  Forall2 same_mask E E' ->
+  moment2d n fmin fmax f th (add_spec2d E E')
+  = moment2d n fmin fmax f th E + moment2d n fmin fmax f th E'.
+Proof. exact moment2d_add. Qed.
 
 Theorem e2d_never_nan : forall th E o, In o (e2d th E) -> o <> None.
 Proof. exact e2d_never_nan. Qed.
